@@ -1,4 +1,5 @@
 import IceProofs.AgentC04Sel
+import IceProofs.AgentAuto
 /-!
 # C04 — the timer side: `stateForDisconnection`, `validateSelected`, `contactCandidates`, `contact`,
 `runForced`, `runTimers`; the tick rule and the checking deadline.
@@ -217,6 +218,15 @@ def vk (a : Agent) (now : Nat) : Agent × List Out :=
     (y.1, x.2.1 ++ y.2)
   else (x.1, x.2.1)
 
+/-- `validateSelectedPair`, the keepalive and the automatic-renomination block (controlling selector) -/
+def vka (a : Agent) (now : Nat) : Agent × List Out :=
+  let x := a.validateSelected now
+  if x.2.2 then
+    let y := x.1.keepalive now
+    let z := y.1.autoRenom now
+    (z.1, x.2.1 ++ y.2 ++ z.2)
+  else (x.1, x.2.1)
+
 /-- the controlling selector without a selected pair -/
 def ccNominate (a : Agent) (now : Nat) : Agent × List Out :=
   match a.nominatedPair.bind a.pairById with
@@ -240,7 +250,7 @@ def ccNominate (a : Agent) (now : Nat) : Agent × List Out :=
 theorem cc_eq (a : Agent) (now : Nat) :
     a.contactCandidates now =
       (if a.controlling then
-        if a.selected.isSome then vk a now else ccNominate a now
+        if a.selected.isSome then vka a now else ccNominate a now
       else if a.cfg.lite then ((a.validateSelected now).1, (a.validateSelected now).2.1)
       else if a.selected.isSome then vk a now else a.pingAll now) := rfl
 
@@ -286,10 +296,41 @@ theorem vk_eff (a : Agent) (now : Nat) (g : Good a) : TickEff a (vk a now) := by
       simpa using hv
     · exact hv.comp (TickEff.of_quiet hv.good (keepalive_quiet b now)) (fun h => absurd h hf)
 
+/-- the automatic-renomination block only sends requests and marks waiting pairs: quiet -/
+theorem autoRenom_quiet (a : Agent) (now : Nat) : QuietO a (a.autoRenom now) := by
+  refine IceProofs.Auto.autoRenom_parts (P := fun x => QuietO a x) ?_ a (QuietO.refl a)
+  exact {
+    mark := fun b _ id _ h _ _ => QuietO.then_quiet h (modPair_quiet b id _)
+    ping := fun b _ l r h _ _ => QuietO.trans h (ping_quiet b now l r)
+    time := fun _ _ h => QuietO.then_quiet h ⟨⟨rfl, rfl, rfl, rfl, fun h => h⟩, rfl, rfl, rfl, rfl⟩
+    count := fun _ _ h => QuietO.then_quiet h ⟨⟨rfl, rfl, rfl, rfl, fun h => h⟩, rfl, rfl, rfl, rfl⟩
+    issue := fun b _ l r nom h _ _ _ _ _ => QuietO.trans h (sendRequest_quiet b now l r true nom)
+    log := fun _ _ _ h => QuietO.then_quiet h ⟨⟨rfl, rfl, rfl, rfl, fun h => h⟩, rfl, rfl, rfl, rfl⟩ }
+
+theorem vka_eff (a : Agent) (now : Nat) (g : Good a) : TickEff a (vka a now) := by
+  unfold vka
+  have hv := validateSelected_eff a now g
+  generalize a.validateSelected now = x at hv
+  obtain ⟨b, o, ok⟩ := x
+  simp only at hv ⊢
+  cases ok
+  · exact hv
+  · simp only [if_true]
+    have h2 : TickEff b (((b.keepalive now).1.autoRenom now).1, (b.keepalive now).2 ++ ((b.keepalive now).1.autoRenom now).2) :=
+      TickEff.of_quiet hv.good (QuietO.trans (keepalive_quiet b now) (autoRenom_quiet _ now))
+    have h3 := hv.comp h2 (fun _ hw => by
+      have e1 : b.keepalive now = (b, []) := keepalive_none b now hw.2.2.2.1
+      have e2 : b.autoRenom now = (b, []) := IceProofs.Auto.autoRenom_wiped b now hw.1 hw.2.2.2.1
+      simp only [e1, e2]
+      exact ⟨rfl, hw⟩)
+    simp only [List.append_assoc] at h3 ⊢
+    exact h3
+
 theorem contactCandidates_eff (a : Agent) (now : Nat) (g : Good a) : TickEff a (a.contactCandidates now) := by
   rw [cc_eq]
   repeat' split
   all_goals first
+    | exact vka_eff a now g
     | exact vk_eff a now g
     | exact TickEff.of_quiet g (ccNominate_quiet a now)
     | exact validateSelected_eff a now g
@@ -469,6 +510,13 @@ theorem vk_connState (a : Agent) (now : Nat) (p : Pair) (hp : a.selected.bind a.
   simp only [validateSelected_some a now p hp, if_true]
   rw [(keepalive_quiet _ now).1.connState, setConnState_connState]
 
+theorem vka_connState (a : Agent) (now : Nat) (p : Pair) (hp : a.selected.bind a.pairById = some p) :
+    (vka a now).1.connState =
+      stateForDisconnection a.cfg a.connState ((a.remoteOf p.r).bind (silence now)) (totalToFailure a.cfg) := by
+  unfold vka
+  simp only [validateSelected_some a now p hp, if_true]
+  rw [(autoRenom_quiet _ now).1.connState, (keepalive_quiet _ now).1.connState, setConnState_connState]
+
 theorem contactCandidates_connState (a : Agent) (now : Nat) (p : Pair) (hp : a.selected.bind a.pairById = some p) :
     (a.contactCandidates now).1.connState =
       stateForDisconnection a.cfg a.connState ((a.remoteOf p.r).bind (silence now)) (totalToFailure a.cfg) := by
@@ -479,7 +527,7 @@ theorem contactCandidates_connState (a : Agent) (now : Nat) (p : Pair) (hp : a.s
   rw [cc_eq]
   simp only [hsel, if_true]
   split
-  · exact vk_connState a now p hp
+  · exact vka_connState a now p hp
   · split
     · rw [validateSelected_some a now p hp]; exact setConnState_connState _ _
     · exact vk_connState a now p hp
